@@ -11,11 +11,18 @@ CFG = {
         "accept_may_overtake_concurrent_lower_request",
         "quiescent_iff_idle", "no_lost_wakeup", "cancel_removes", "cancel_enabled", "stale_hold_is_inert",
         "fetcher_one_request_per_block", "fetcher_cancels_only_queued_blocks", "fetcher_covers_every_missing_block",
+        # the acceptor (gossip/runner.rs get_block task) composed with the queue and the store
+        "node_projects_to_queue", "task_owns_hold", "completed_implies_queued", "done_only_if_queued",
+        "completion_sent_after_push", "request_never_lost_node", "acceptor_failure_requeues",
+        "valid_response_parks", "parked_waits_for_predecessors", "nQuiescent_iff",
     ],
     "technique": "Lean 4 theorems (inductive invariants over all runs of a labelled transition system whose events are the "
                  "critical sections of gossip/fetch.rs, watch version and oneshot channels explicit) + trace acceptance of "
                  "the real Queue::request / Queue::accept_block futures and of the real run_block_fetcher, with an "
-                 "idle-vs-enabled check at every quiescent point",
+                 "idle-vs-enabled check at every quiescent point; second LTS = that queue composed with the per-connection "
+                 "get_block task of gossip/runner.rs and the store (invariant over all runs) + a real node (testonly::Instance, "
+                 "real EngineManager, real block fetcher) driven by raw gossip peers, settled by polling real state against "
+                 "deadlines, trace acceptance of the requests that reached the peers by the composed model",
     "level_text": "Proof, for every reachable state / every run of the queue LTS (any number of peers, blocks, requests; every "
                   "interleaving of request creation, cancellation, announcements, accept calls, successes, failures, "
                   "disconnects with the internal steps of the futures): every live request is on offer in the map, or held "
@@ -37,20 +44,45 @@ CFG = {
                   "directed family 8 and counted as overtake_in_concurrent_step). The model is tied to the code by running "
                   "the real futures on a current-thread runtime: every step's visible events must be a trace of the LTS "
                   "ending in an idle model state, and the snapshots (current_blocks, live requests, accept calls, holds) "
-                  "must agree.",
+                  "must agree. ACCEPTOR (gossip/runner.rs, the consumer of accept_block) — Proof, for every reachable state of "
+                  "the composition queue + get_block tasks (rpc -> checks in the code's order: empty response, wrong number, "
+                  "verification -> parked in queue_block's wait_for -> try_push and send_resp.send(()) in one step; dropped at "
+                  "either await point by timeout / disconnect / cancellation) + store (queued().next(), other writers only "
+                  "advance it): succeed/fail of a hold are performed only by the one live task that owns it (task_owns_hold); a "
+                  "request is completed only if its block is queued in the store (completed_implies_queued, "
+                  "done_only_if_queued, completion_sent_after_push: the completion step is enabled only for a parked task with "
+                  "queued().next() >= n and leaves n < queued().next()); every block asked for and not given up has a live, "
+                  "uncancelled request that is on offer, or held by exactly one hold owned by a live task, or about to "
+                  "re-insert itself, or completed with the block queued — or its request has returned and the block is queued "
+                  "(request_never_lost_node); every failure path of the acceptor (rpc error, empty response, wrong number, "
+                  "right number but invalid, drop at the rpc await, drop while parked in queue_block) is enabled, removes task "
+                  "and hold, cancels the connection's accept call, wakes the requester with Disconnected, and the re-insertion "
+                  "puts the block on offer under a fresh channel (acceptor_failure_requeues).",
     "level_note": "Hand-written model (not translated): its agreement with fetch.rs and with gossip/mod.rs:124-158 is "
                   "established by the correspondence run on the generated steps only. The third anchor, "
-                  "gossip/runner.rs:190-236 (the per-connection get_block task: send_resp.send(()) only after queue_block "
-                  "succeeded, any failure drops send_resp and tears the connection down), is NOT executed by the harness; its "
-                  "behaviour is the environment events succeed / fail / cancelAcc of the model (assumption). Real "
+                  "gossip/runner.rs:190-236 (the per-connection get_block task), is modelled in Model/FetchNode.lean and "
+                  "executed by the second harness (c19n): a real node with raw peers. What is K there: for every step the "
+                  "multiset of get_block requests that reached the raw peers must be the hand-overs to live peers of some "
+                  "interleaving of the composed model that ends quiescent, and the settled snapshot (fetch queue map, (peer, "
+                  "block) pairs held, those parked in queue_block, queued().next(), live connections) must equal the model's. "
+                  "Which peer wins a race and the arrival order of requests on different connections are not deterministic: "
+                  "the trace is compared as a sorted multiset and the model accepts any interleaving. What is S only: 'settled "
+                  "within the deadline' (request-lost / lost-wakeup / in-map-and-held / stale-request), ask-not-announced, "
+                  "double-ask, double-handover, not-all-persisted (eventually all blocks stored once an honest announcing peer "
+                  "is connected) — decided by polling the node's real state until a deadline (6 s), never by a fixed sleep. "
+                  "Not settling for a reason the property does not forbid (connection kept after a fault, delivered block not "
+                  "queued) is reported through K only. The rpc-timeout cases use a 1.2 s get_block_timeout; a call of such a "
+                  "case that times out although the script meant to answer it is fed to the model as an environment event "
+                  "(`late`). In the first harness the acceptor's behaviour is still the environment events succeed / fail / "
+                  "cancelAcc. Real "
                   "multi-threaded scheduling is covered by the theorems (all interleavings of the critical sections), not by "
                   "the run: the run is single-threaded with a harness-controlled, seeded order of the queue's futures and "
                   "with several environment actions applied between polls. Eventual completion (a peer that has the block "
                   "eventually serves it) is outside the property. Level-triggered behaviour of tokio's watch::changed / "
                   "wait_for and oneshot is assumed (third-party).",
-    "harness": "c19",
+    "harness": ["c19", "c19n"],
     "ignore_keys": ["class"],
-    "n": {"quick": 500, "thorough": 20000},
+    "n": {"quick": [500, 60], "thorough": [20000, 1500]},
     "rule": "a case starts with init (fresh Queue, or fresh EngineManager + gossip Network running the real run_block_fetcher); "
             "a step = 1-4 environment actions (req n / cancel n / start p / stop p / ann p first last / ok h / fail h; fetcher "
             "family also queue) applied without polling, then all futures are polled to quiescence in an order seeded by the "
@@ -61,20 +93,43 @@ CFG = {
             "create+cancel before first poll, stop/restart; malformed steps), 8 fetcher cases (k 1-4 permits, with and without "
             "the store's persistence task), N random cases of 8-40 steps over 1-4 peers and 3-8 block numbers, up to 60% "
             "concurrent steps; every step yields a compared observation (event list + snapshot); distinct = distinct op "
-            "lines (action list + sch + observed trace)",
+            "lines (action list + sch + observed trace). Second harness (c19n, real node + 2-4 raw peers + a final honest "
+            "peer): a case = ninit (k 1-3 fetch permits, 3-6 blocks, optional rpc timeout) then nsteps of one action each "
+            "(conn p / ann p lo hi / ans p n kind with kind in ok, none, wrong+, wrong-, badpayload, fewsig, wronggen / drop p / "
+            "timeout), each followed by polling until settled; 16 directed families (one per faulty answer kind; invalid "
+            "block while the successor is parked in queue_block x3; disconnect before answering; out-of-order delivery then "
+            "disconnect while parked; timeout in rpc; timeout while parked; three peers racing after a failure; ranges not "
+            "covering the lowest missing block; out-of-order valid deliveries) + N random cases of 7-17 steps generated "
+            "adaptively from the seeded PRNG (the generator answers requests that really reached a peer); every case ends "
+            "with an honest peer answering everything until all blocks are persisted",
     "trusted": ["Model/Fetch.lean is a hand transcription of Queue::request / Queue::accept_block (gossip/fetch.rs) and of "
                 "Network::run_block_fetcher (gossip/mod.rs); tied to the code by the correspondence run",
                 "the model driver explores the quotient of the LTS by channel renaming and version shifting (Driver/C19.lean, "
                 "canon) to keep the candidate set small; the quotient is a bisimulation by inspection, not by proof",
-                "the harness's gates (a woken future is polled only when its gate is open) are ordinary scheduling"],
+                "the harness's gates (a woken future is polled only when its gate is open) are ordinary scheduling",
+                "Model/FetchNode.lean is a hand transcription of the get_block task of Network::run_stream "
+                "(gossip/runner.rs) and of EngineManager::queue_block (libs/engine/src/manager.rs); a task has exactly two "
+                "states because it has exactly two await points; tied to the code by the c19n correspondence run",
+                "Driver/C19n.lean explores the quotient by channel / hold-id renaming, lets the fetcher model react to the "
+                "store eagerly, treats a connection's teardown after a failed call as atomic, and hides hand-overs on "
+                "connections that are already going down (they never reach the peer)",
+                "the raw peer (verif/fetch_gossip.rs: raw_connect, RawPeer, GetBlockCall) is the crate's own test-only "
+                "gossip::testonly::connect made public under the feature `verif`"],
     "assumptions": ["each send_if_modified / borrow_and_update closure of tokio's watch channel runs atomically; "
                     "watch::Receiver::changed is enabled iff the receiver's version differs from the sender's; wait_for and "
                     "oneshot are level-triggered",
                     "one request future per block number at a time (documented precondition of Queue::request; "
                     "run_block_fetcher satisfies it: fetcher_one_request_per_block)",
-                    "gossip/runner.rs reports success only after the block is queued and otherwise drops the sender"],
+                    "first harness only: gossip/runner.rs reports success only after the block is queued and otherwise drops "
+                    "the sender (in the composed model this is a theorem, and the second harness runs the real task)",
+                    "a future is dropped only at an await point (no timeout / cancellation between try_push and "
+                    "send_resp.send(()))",
+                    "queued().next() never decreases (EngineManager: try_push, update_persisted)"],
     "explanation": "theorems over all runs of the fetch-queue LTS; K = trace acceptance of the real futures' visible events "
                    "by the same step? relation plus idle-vs-enabled and snapshot comparison; S = monitors on the "
                    "implementation's own history (no double hand-over, accept only if announced, lowest first for "
-                   "sequential steps, request never lost, no stale map entry, no lost wake-up)",
+                   "sequential steps, request never lost, no stale map entry, no lost wake-up); for the acceptor: theorems "
+                   "over all runs of the composed LTS; K = acceptance of the observed get_block requests of a real node by "
+                   "the composed model + settled snapshot comparison; S = settle-by-deadline monitors on the real node "
+                   "(request lost, lost wake-up, asked without announcement, two holders, not all blocks persisted)",
 }
